@@ -287,7 +287,7 @@ func (dec *Decoder) More() bool {
 			atEnd := errors.Is(err, io.ErrUnexpectedEOF) && len(bytes.TrimLeft(dec.dec.UnreadBuffer(), " \n\r\t")) == 0
 			dec.err = transformSyntacticError(err)
 			if atEnd {
-				return false
+				dec.err = io.EOF // like v1, further calls report the end of input
 			}
 		}
 		return dec.err != io.EOF
